@@ -67,7 +67,9 @@ def _case(draw, tier):
             # opened through the class or through HashStoreFactory.get_hashstore (what the client uses)
             "via": draw(st.sampled_from(["class", "factory"])),
             # an EARLIER store with another configuration lived at the same path in this process and was removed
-            "previous_life": draw(st.sampled_from([None, None, {"store_depth": 2, "store_width": 3, "store_algorithm": "SHA-384",
+            # the three data directories are symbolic links to directories elsewhere (bulk data moved to another volume)
+            "symlinked_dirs": draw(st.integers(0, 5)) == 0,
+            "previous_life": draw(st.sampled_from([None, None, "same-as-reopen", {"store_depth": 2, "store_width": 3, "store_algorithm": "SHA-384",
                                                                  "store_metadata_namespace": "http://ns.example/previous"},
                                                    {"store_depth": 3, "store_width": 2, "store_algorithm": "SHA-256",
                                                     "store_metadata_namespace": NSS[0]}]))}
@@ -180,13 +182,19 @@ def run_case(case, ctx):
         return _race_case(case, ctx)
     parent = ctx.scratch("c14")
     root = os.path.join(parent, "st")
-    if case.get("previous_life"):
-        prev = call(common.hs().FileHashStore, dict(case["previous_life"], store_path=root))
+    pl = case.get("previous_life")
+    if pl == "same-as-reopen":
+        # the earlier store had exactly the configuration that will be used for the REOPEN below (and was itself reopened
+        # successfully): whatever this process remembers about "path + configuration verified" is stale by then
+        pl = dict(case["reopen"]) if case["reopen"]["store_algorithm"] in GOOD_ALGOS else None
+    if pl:
+        prev = call(common.hs().FileHashStore, dict(pl, store_path=root))
         if is_ok(prev):
             call(prev[1].store_object, "old", common.write_file(os.path.join(parent, "oldobj"), b"previous life"))
-            call(common.hs().FileHashStore, dict(case["previous_life"], store_path=root))   # a reopen, too
+            call(common.hs().FileHashStore, dict(pl, store_path=root))   # a reopen, too
         shutil.rmtree(root, ignore_errors=True)
-        os.remove(os.path.join(parent, "oldobj"))
+        if os.path.isfile(os.path.join(parent, "oldobj")):
+            os.remove(os.path.join(parent, "oldobj"))
         ctx.classify("path-had-a-previous-store")
     if case["path_state"] != "absent":
         os.makedirs(root)
@@ -230,6 +238,13 @@ def run_case(case, ctx):
                 stored[pid] = open(f, "rb").read()
         call(store.store_metadata, "p1", m1)
         call(store.store_metadata, "p3", m1, "fmt:other")
+    if case.get("symlinked_dirs"):
+        elsewhere = os.path.join(parent, "other-volume")
+        os.makedirs(elsewhere)
+        for sub in ("objects", "metadata", "refs"):
+            shutil.move(os.path.join(root, sub), os.path.join(elsewhere, sub))
+            os.symlink(os.path.join(elsewhere, sub), os.path.join(root, sub))
+        ctx.classify("data-directories-are-symbolic-links")
     if case["yaml_removed"]:
         os.remove(os.path.join(root, "hashstore.yaml"))
     s0 = common.snapshot(parent)
